@@ -218,7 +218,8 @@ def run_history(s, ctx, hseed, nsteps, force_zero_did=False, wrap=False, big=Fal
                     ln = (kind[1] if kind and kind[1] is not None else rng.randrange(1, 6))
                     if rng.random() < 0.1 and not (kind and (kind[0] in ('le', 'be') or kind[0] in NATIVE)):
                         ln += 1                                   # wrong length: refused locally (an integer value has no length to get wrong)
-                    v = bytes(ln) if rng.random() < 0.15 else bytes(rng.randrange(256) for _ in range(ln))
+                    from .. import declib as _dl
+                    v = bytes(ln) if rng.random() < 0.15 else _dl.vb(rng, ln)
                     op = ('wdbi', did, v)
                 elif r < 0.48:
                     pool = list(shadow.dids) or [0x1234]
